@@ -147,7 +147,7 @@ def _aimed_payloads(tier):
                                                        ("z",): r.randbytes(100)}, rc.V2_KINDS))
     if tier == "thorough":
         out += [(rc.NAME_LABELS[sh], rc.NAME_SHAPES[sh][0], _named_tree(sh), same)
-                for sh in ("equivalent-names-side-by-side", "nfd-payload-directory", "glob-metacharacters")]
+                for sh in ("equivalent-names-side-by-side", "nfd-payload-directory", "glob-metacharacters", "glob-payload-name")]
         if rec["sha256-pair"] and rec["sha256-block"]:
             out.append((UTF8_V2_LABEL, "p", lambda r, pl: {("k",): rc.recipe_bytes(rec["sha256-block"][0]),
                                                            ("two",): b"".join(rc.recipe_bytes(x) for x in rec["sha256-pair"][0])}, rc.V2_KINDS))
